@@ -266,6 +266,10 @@ class Checker:
             elif op == "split":
                 self.record(pre + "split()")
                 s.split()
+            elif op == "pickle":
+                import pickle
+                self.record(pre + "pickle round trip")
+                self.solvers[si] = (pickle.loads(pickle.dumps(s)), cs)
             if self.invariant is not None and self.fail is None:
                 for k, (sk, csk) in enumerate(self.solvers):
                     msg = self.invariant(self.u, sk, csk)
